@@ -1,4 +1,5 @@
 #include "sym.h"
+#include <half.h>
 #include "shapes.h"
 #include "main.h"
 #include <ImathBox.h>
